@@ -22,11 +22,13 @@ import vlib
 # a Z 0 9 _ - . : / e-acute arabic-indic-digit-three NUL space
 ALPHA = ["a", "Z", "0", "9", "_", "-", ".", ":", "/", "é", "٣", "\x00", " "]
 ALPHA_ARG = ",".join("%x" % ord(c) for c in ALPHA)
-DEFAULT_TAIL = "P:err I:err E:err B:err M:err O:err W:eeeeee Y:e"
+DEFAULT_TAIL = "P:err I:err E:err B:err M:err O:err W:eeeeee Y:e T:eeee"
 NAMES = {"P": "validate_object_path", "I": "validate_interface", "E": "validate_errorname",
          "B": "validate_busname", "M": "validate_membername", "O": "ObjectPath::new"}
 WPOS = ["path", "interface", "member", "error_name", "destination", "sender"]
 WKEY = ["P", "I", "M", "E", "B", "B"]          # the validator that decides each header position
+WCONF = ["Call/minimal", "Call/full", "Signal/minimal", "Signal/full", "Reply/minimal", "Reply/full", "Error/minimal", "Error/full"]
+CTORS = ["ObjectPath::<String>::new", "TryFrom<&str> for ObjectPath", "TryFrom<String> for ObjectPath", "ObjectPath::new(&str) + to_owned"]
 
 # frames (prefix, suffix) around one scalar value; their letters x b m q 1 7 are not in ALPHA, so
 # frame strings never coincide with enumerated strings (except the bare character, accounted for)
@@ -38,6 +40,9 @@ FRAMES = [("/x", ""), ("/", "x"), ("/x/", ""), ("/", ""), ("/x", "/x"),
 SPECIAL_CPS = [0x7f, 0x80, 0xaa, 0xb2, 0xb5, 0xba, 0xbc, 0xc0, 0xe9, 0x660, 0x663, 0x966, 0x2160, 0x2460,
                0x3007, 0x3021, 0x4e00, 0xac00, 0xd7ff, 0xe000, 0xff10, 0xff21, 0xff41, 0xfffd, 0xffff,
                0x10000, 0x10140, 0x104a0, 0x1d7ce, 0x1d7ff, 0x1f600, 0x20000, 0xe0041, 0x10fffd, 0x10ffff]
+
+
+NSAMPLE_CPS = 2500          # quick tier: special + seeded sample of scalar values >= U+3000, each put into every frame
 
 
 def hx(b):
@@ -197,18 +202,38 @@ def judge(impl_line, model_line):
             viol.append("ObjectPath::new returned a different string")
         elif i[k] != m[k]:
             (viol if spec_ok else other).append("%s: %s (specification: %s)" % (name, i[k], m[k]))
+    detail = {}
+    for part in (i.get("WD") or "").split(","):
+        if "=" in part:
+            k, v = part.split("=", 1)
+            detail[int(k)] = v
     for pos, (wi, wm) in enumerate(zip(i["W"], m["W"])):
         spec_ok = m[WKEY[pos]] == "ok"
         if wm != ("o" if spec_ok else "e"):
             other.append("model wire verdict inconsistent with model validator at %s" % WPOS[pos])
-        if wi == "o" and not spec_ok:
-            viol.append("marshal writes a header whose %s the specification forbids" % WPOS[pos])
-        elif wi == "e" and spec_ok:
-            viol.append("marshal refuses a header whose names are all valid (%s under test)" % WPOS[pos])
-        elif wi == "p" and spec_ok:
-            viol.append("marshal panics on a header whose names are all valid (%s under test)" % WPOS[pos])
+        letters = detail.get(pos, wi * 8) if wi == "m" else wi * 8
+        def confs(ch):
+            return ",".join(WCONF[c] for c, l in enumerate(letters) if l == ch)
+        if "o" in letters and not spec_ok:
+            viol.append("marshal writes a header whose %s the specification forbids (%s message)" % (WPOS[pos], confs("o")))
+        elif "e" in letters and spec_ok:
+            viol.append("marshal refuses a header whose names are all valid (%s under test, %s message)" % (WPOS[pos], confs("e")))
+        elif "p" in letters and spec_ok:
+            viol.append("marshal panics on a header whose names are all valid (%s under test, %s message)" % (WPOS[pos], confs("p")))
         elif wi != wm:
-            other.append("marshal with the string as %s: %s (model %s)" % (WPOS[pos], wi, wm))
+            other.append("marshal with the string as %s: %s %s (model %s)" % (WPOS[pos], wi, detail.get(pos, ""), wm))
+    path_ok = m["P"] == "ok"
+    for c, (ti, tm) in enumerate(zip(i.get("T", "????"), m.get("T", "????"))):
+        if tm != ("o" if path_ok else "e"):
+            other.append("model constructor verdict inconsistent with model validator (%s)" % CTORS[c])
+        if ti in ("o", "n", "x") and not path_ok:
+            viol.append("%s accepts a path the specification forbids%s" % (CTORS[c], {"o": " and the typed Marshal impl writes it into a message body", "n": "", "x": ""}[ti]))
+        elif ti == "e" and path_ok:
+            viol.append("%s rejects a path the specification allows" % CTORS[c])
+        elif ti == "n" and path_ok:
+            viol.append("the typed Marshal impl refuses a valid ObjectPath (%s)" % CTORS[c])
+        elif ti != tm:
+            other.append("%s then typed marshal: %s (model %s)" % (CTORS[c], ti, tm))
     spec_ok = m["P"] == "ok"
     if i["Y"] == "o" and not spec_ok:
         viol.append("a forbidden object path is written into a message body")
@@ -319,21 +344,28 @@ def libdbus_compare(ctx, fns, raw, model_verdicts, stats):
 def run(ctx):
     thorough = ctx.tier == "thorough"
     maxlen = 6 if thorough else 5
+    scan_txt = ("every one of the 1,112,064 Unicode scalar values" if thorough else
+                "every scalar value in U+0000..U+2FFF (12,288 per frame) plus, per frame, %d code points as explicit strings (a fixed list of special ones and a seeded sample "
+                "of U+3000..U+10FFFF) (the full 1,112,064 scalar values are scanned only in the thorough tier)")
     ctx.rule = ("strings = (1) exhaustive enumeration of all strings over the 13 characters {a Z 0 9 _ - . : / U+00E9 U+0663 NUL space} "
                 "up to length %d, enumerated inside the harness and inside the extracted model and compared by the set of lines "
-                "with any accepting verdict plus the totals; (2) every Unicode scalar value %s as the one varying character in %d valid "
+                "with any accepting verdict plus the totals; (2) %s as the one varying character in %d valid "
                 "frames (/x<c>, x.<c>b, :1.<c>, m<c>, <c> alone, ...); (3) the 253..257/300/302/511-byte boundary built from valid shapes of "
                 "every kind, also with 2/3/4-byte characters next to the boundary; (4) grammar-generated valid names of every kind and "
                 "their single/double mutations, random long names, a fixed list, the corpus. Every string goes to the five validators, "
-                "ObjectPath::new, marshal() with the string in each of the six header name positions, and a body object path. "
+                "every public ObjectPath constructor (new for &str and String, TryFrom<&str>, TryFrom<String>, to_owned) followed by the typed "
+                "Marshal impl with the value read back from the body bytes, marshal() with the string in each of the six header name positions "
+                "in 8 configurations (message type Call/Signal/Reply/Error built with the public builders x only-required-fields/all-fields, names "
+                "read back from the header bytes), and a body object path via params::Base::ObjectPath. "
                 "A case is non-trivial when some verdict accepts it or it contains both a separator (/ . :) and a name character; "
-                "distinct = distinct strings") % (maxlen, "(all 1,112,064)" if thorough else "in U+0000..U+2FFF plus a seeded sample of the rest", len(FRAMES))
+                "distinct = distinct strings") % (maxlen, scan_txt if thorough else scan_txt % NSAMPLE_CPS, len(FRAMES))
     ctx.trusted = ["Coq 8.16.1 kernel (coqc), no native_compute",
                    "extraction with ExtrOcamlBasic only, ocamlfind ocamlopt 4.13.1",
                    "ocaml/c08/driver.ml (UTF-8 decoder, cross-checked against the extracted utf8_bytes on every explicit string) and harness/src/bin/c08.rs (I/O wrappers, an independent header-field reader)",
                    "coq/Names/Spec.v is my reading of the D-Bus specification's 'Valid Object Paths' and 'Valid Names' (guarded by a comparison with libdbus when installed)",
                    "coq/Names/Str.v is my reading of str::split/split_once/strip_prefix/len and char::is_ascii_* (tied to std by the differential run)"]
-    ctx.assumptions = ["strings are Rust &str (valid UTF-8); the model works on the list of scalar values",
+    ctx.assumptions = ["SignatureWrapper (the other wrapper type in wrapper_types.rs) belongs to C07 (signatures), not to this property",
+                       "strings are Rust &str (valid UTF-8); the model works on the list of scalar values",
                        "usize is 64 bit (the cnt = i + 1 counter cannot overflow for strings of at most 255 bytes in any case)",
                        "the wire corollary records what marshal_header_* write as (field code, string); the byte layout is C02/C05's subject; the harness reads the names back from the real bytes"]
     ctx.try_proof()
@@ -379,7 +411,7 @@ def run(ctx):
     cps = list(SPECIAL_CPS)
     if not thorough:
         rs = ctx.sub_rng("cps")
-        while len(cps) < 2500:
+        while len(cps) < NSAMPLE_CPS:
             c = rs.randrange(0x3000, 0x110000)
             if not 0xd800 <= c <= 0xdfff:
                 cps.append(c)
